@@ -118,6 +118,13 @@ def is_zero_extension(par, eff):
     for k, v in single_defs(cur).items():
         if ntext(v) in (m + '.shape[1]', m + '.shape[-1]'):
             widths.append(k)
+    # the new width is max(.., current width, ..): never narrower (equal: resize changes nothing)
+    ce = cols
+    if isinstance(ce, ast.Name) and ce.id in single_defs(cur):
+        ce = single_defs(cur)[ce.id]
+    if isinstance(ce, ast.Call) and ntext(ce.func) in ('max', 'np.maximum', 'numpy.maximum') and not ce.keywords and \
+            any(ntext(a) in widths for a in ce.args):
+        return True
     for w in widths:
         if holds(st, '%s < %s' % (w, c)):
             return True
